@@ -11,6 +11,7 @@ import (
 	"os"
 	"strings"
 	"sync"
+	"sync/atomic"
 	"testing"
 	"time"
 
@@ -256,6 +257,7 @@ type c19Call struct {
 	resp     c19Resp
 	inm      string
 	answer   string // "200:<version>" or "304:<etag version>"
+	extra    []int  // answers given to requests the call repeated on its own
 }
 
 // runSchedule executes n concurrent calls under one interleaving given as a
@@ -298,12 +300,42 @@ func runC19Schedule(c *vs.Case, n int) error {
 	byReq := make(chan *http.Request) // unused, keeps the shape explicit
 	_ = byReq
 	idxCh := make(chan int, n)
+	var adjusting atomic.Pointer[c19Call]
 	client := &scriptedClient{}
 	client.do = func(req *http.Request) (*http.Response, error) {
 		if req.Header.Get("X-Warm") != "" {
 			return httpResp(200, etagHdr(`"v1"`), `{"status":{"v":1}}`), nil
 		}
-		i := <-idxCh
+		var i int
+		select {
+		case i = <-idxCh:
+		default:
+			// a request nobody scheduled: the call that is being adjusted right now asks again (an
+			// implementation may repeat a request). The server answers it on its own: with the current
+			// content, or with an error page whose body happens to decode.
+			cl := adjusting.Load()
+			if cl == nil {
+				return nil, fmt.Errorf("harness: unscheduled request outside an adjustment step")
+			}
+			k := c.Int(4)
+			cl.extra = append(cl.extra, k)
+			c.Class("call-repeated-its-request")
+			etag := fmt.Sprintf(`"v%d"`, version)
+			switch k {
+			case 0:
+				cl.answer = fmt.Sprintf("200:%d", version)
+				return httpResp(200, etagHdr(etag), fmt.Sprintf(`{"status":{"v":%d}}`, version)), nil
+			case 1:
+				cl.answer = "500:0"
+				return httpResp(500, etagHdr(`"err"`), `{}`), nil
+			case 2:
+				cl.answer = "503:0"
+				return httpResp(503, http.Header{}, `{"status":{"v":99}}`), nil
+			default:
+				cl.answer = "404:0"
+				return httpResp(404, http.Header{}, `{"error":"no such hook"}`), nil
+			}
+		}
 		cl := calls[i]
 		cl.inm = req.Header.Get(headerIfNoneMatch)
 		cl.entered <- cl.inm
@@ -368,12 +400,21 @@ func runC19Schedule(c *vs.Case, n int) error {
 				return err
 			}
 		case 'A':
+			adjusting.Store(cl)
 			cl.doReturn <- struct{}{}
 			select {
 			case err := <-cl.done:
+				adjusting.Store(nil)
 				// judge this call
 				kind, ver := 0, 0
 				fmt.Sscanf(cl.answer, "%d:%d", &kind, &ver)
+				if kind != 200 && kind != 304 {
+					// the last thing the hook said to this call was an error page
+					if err == nil {
+						return vs.Violf("C19/bad-status-accepted", "call %d repeated its request and got HTTP %d, yet it returned %+v as the hook's answer (schedule %s)", e.call, kind, cl.resp, strings.Join(sched, " "))
+					}
+					continue
+				}
 				if err != nil {
 					// an error is acceptable when the body cannot be known; a 200 must succeed
 					if kind == 200 {
